@@ -145,7 +145,7 @@ package graphql
 //@ func completePlannedAbstractValue
 //@   props C20 C04 C01
 //@   nosafety
-//@   requires eCtx != nil
+//@   requires eCtx != nil && fp != nil && (eCtx.plan == nil || !held(&eCtx.plan.abstractMu))
 //@   at[C20] call ResolveType: assert arg0.Value == result && arg0.Context == eCtx.Context
 //@   at[C20] call defaultResolveTypeFn: assert arg0.Value == result && arg0.Context == eCtx.Context && arg1 == returnType
 //@   at[C20,C01] call executePlannedSelection: assert arg0 == eCtx && arg2 == result && arg3 == runtimeType && arg4 == path && arg3 != nil
